@@ -41,6 +41,8 @@ PROBES = {
                            "(etl::nullopt <= o) && (etl::nullopt > o) && (etl::nullopt >= o); (void)b;",
     "C07_HAS_EXPECTED_UNEX_ASSIGN": "etl::expected<int,int> e; e = etl::unexpected<int>(1);",
     "C07_HAS_OPTREF_CONV": "etl::optional<int&> a; etl::optional<int const&> c(a); (void)c;",
+    "C07_HAS_EXPECTED_EQ": "etl::expected<int,int> a; etl::expected<int,int> b; bool r = (a == b) && !(a != b); (void)r;",
+    "C07_HAS_VALUE": "etl::optional<int> o(1); etl::expected<int,int> e; (void)o.value(); (void)e.value();",
 }
 PROBE_RESULT = {k: _probe(v) for k, v in PROBES.items()}
 # std::expected needs C++23; 15 variant + 9 optional + 7 expected configurations at -O0, compiled as NPARTS object files in
@@ -101,7 +103,8 @@ def run(ctx, replay=None):
 RULE = ("A case is a history: `new kind=var|opt|oref|exp alts=.. n=N` creates N objects of one configuration (etl and std side by side), "
         "each following line is one operation on them; after every line the result and the (index, value) of every object are compared. "
         "Configurations: variant over {int,float}, {float,int}, {int,Trk}, {Trk,int}, {Trk,int,float}, {int,float,Trk}, {Trk,Mo}, "
-        "{int,float,Trk,Mo}, {float,Mo}, {int,C}, {int,D}, {int,A}, {int,B}, {Q,X}, {C,B}; optional<int|float|Trk|Mo|C|D|A|B|X> with a "
+        "{int,float,Trk,Mo}, {float,Mo}, {int,C}, {int,D}, {int,A}, {int,B}, {Q,X}, {C,B}, {int,int} (a repeated alternative type: the "
+        "by-type forms and the converting forms must be rejected); optional<int|float|Trk|Mo|C|D|A|B|X> with a "
         "partner optional<long|int>; optional<int&>; expected<int,Trk>, <Trk,int>, <int,float>, <Trk,Mo>, <int,C>, <Q,X>, <D,B> "
         "(Trk: non-trivial copy/move/destructor, Mo: move-only; float incl. NaN; C, D, A, B: exactly one user-provided special member "
         "- copy ctor, move ctor, copy assignment, move assignment - the other three defaulted and trivial; Q, X: all four "
@@ -113,10 +116,14 @@ RULE = ("A case is a history: `new kind=var|opt|oref|exp alts=.. n=N` creates N 
         "same for operator*, error(), and_then and or_else of optional and expected. "
         "Exhaustive part: every (from-state, to-state) pair over 2 values per alternative x {copy/move assignment, copy/move construction, "
         "generic swap, member swap, self forms, six relational operators, visit, visit_with_index}; every converting "
-        "constructor/assignment argument type {int,short,long,float,Trk,Mo} x every state; optional: every pair x mixed "
+        "constructor/assignment argument type {int,short,long,float,Trk,Mo, every mark-carrying kind that is an alternative, one "
+        "that is not} x {lvalue, rvalue argument} x every state (the argument is a named object, shown after the operation, so "
+        "copy / move assignment / construction of the element and the moved-from argument are all visible); visit / "
+        "visit_with_index with a non-variant argument before or after the variant and with no variant at all; optional: every pair x mixed "
         "optional<T>/optional<U>, nullopt and value forms in both operand orders, converting construction/assignment from "
         "optional<U>, value_or/and_then/or_else on lvalues and rvalues; 3-variant visits over every index triple; all histories of "
-        "depth 2 (thorough: 3) over a 27-operation alphabet. Random part (VERIF_SEED): histories of 10-30 operations over all "
+        "depth 2 (thorough: 3) over a 27-31-operation alphabet; expected: == / != for every pair of states and value() (members etl "
+        "does not have: known findings). Random part (VERIF_SEED): histories of 10-30 operations over all "
         "members. A case is non-trivial when some line leaves the objects in a state different from the initial one; "
         "distinct = distinct case text.")
 ASSUMPTIONS = ["std::variant / std::optional / std::expected of libstdc++ 12 (-std=c++23) are the reference for spec validation (R2); "
@@ -127,41 +134,66 @@ ASSUMPTIONS = ["std::variant / std::optional / std::expected of libstdc++ 12 (-s
                "the four special members of the element types are arbitrary functions on values (structure `Elem`: no laws); the "
                "variant's trait bits are sound for them (hypothesis `TrivOK`: a special member of the variant is the defaulted bitwise "
                "one only when every alternative's corresponding members are the plain copy - what is_trivially_* means)",
-               "no alternative has a potentially-throwing copy constructor together with a non-throwing move constructor (hypothesis "
-               "`hfb` of assign_refines / step_refines / run_refines / expected_refines); the excluded class is known finding "
-               "F-C07-copy-assign-no-copy-then-move (kind x), theorem assign_fallback_counterexample",
+               "the step at hand is not a cross-alternative COPY (assignment from a const& variant / expected, converting assignment "
+               "from an lvalue T_j) of a value whose type has a potentially-throwing copy constructor together with a non-throwing move "
+               "constructor: hypothesis `Spec.fbHit fb st op = false` of the `_partial` theorems (assign_refines_partial, "
+               "convAssign_refines_partial, step_refines_partial, run_refines_partial via Spec.OkRun, expected_refines_partial), a "
+               "decidable predicate on the state and the operation, evaluated step by step (histories over a configuration containing "
+               "such a type are covered except for those steps); the excluded class is known finding "
+               "F-C07-copy-assign-no-copy-then-move (kind x), theorems assign_fallback_counterexample / "
+               "convAssign_fallback_counterexample",
+               "a converting assignment that the implementation routes through a temporary variant / optional (overload resolution "
+               "does so for scalar alternatives only) is to an alternative whose move construction / assignment of the temporary is "
+               "not observable (hypothesis `Spec.ConvOK` / `ViaTempOK`, decidable; checked by the driver on every such line - a failure "
+               "would be reported as bad-op; lemma viaTempOK_plain: always true when the special members are the plain copy)",
+               "[variant.swap] leaves the number of moves of an exchange between different alternatives open; the three-move form equals "
+               "the one-move-each statement of the spec when a second move construction is not observable (`Spec.MoveIdem`, hypothesis of "
+               "swapV_eq_std / swap2_std / swapO_eq_std; true for the element kinds used: constant marks)",
                "histories only name existing objects and alternative indices (Spec.valid); operator* / error() are only applied where "
                "their precondition holds; float -> integer conversions are not driven with NaN"]
 TRUSTED = ["hand model Tetl/C07/Model.lean tied to the source by the correspondence run (R1) on every run",
            "spec Tetl/C07/Spec.lean validated against libstdc++ std::variant/std::optional/std::expected (R2) on every run",
            "the conversion-rank table of the element types (Driver.convTab) is test data, validated by R1 and R2 on every "
            "argument type x configuration; C++ overload resolution itself is the compiler's",
-           "compile probes (PROBES in checks/props/c07.py) decide whether the three optional members exist; their result is part "
+           "compile probes (PROBES in checks/props/c07.py) decide whether the five optional members exist; their result is part "
            "of the harness flags and of the evidence"]
 T = "Tetl.C07.Props."
 THEOREMS = {
     "vcat": [], "ocat": [], "ecat": [],
-    "visit": [T + "visit_dispatch", T + "visit1_active", T + "visit2_active"],
-    "emplace": [T + "step_refines", T + "run_refines", T + "optional_refines", T + "expected_refines"],
-    "assign": [T + "assign_refines", T + "assign_fallback_counterexample", T + "assignSelf_refines", T + "step_refines", T + "run_refines",
-               T + "optional_refines", T + "expected_refines"],
-    "ctor": [T + "construct_refines", T + "step_refines", T + "run_refines"],
-    "swap": [T + "swap2_refines", T + "swapSelf_refines", T + "step_refines", T + "run_refines"],
+    "visit": [T + "visit_dispatch", T + "visit1_active", T + "visit2_active"], "visitp": [T + "visit_dispatch"],
+    "emplace": [T + "step_refines_partial", T + "run_refines_partial", T + "optional_refines", T + "expected_refines_partial"],
+    "assign": [T + "assign_refines_partial", T + "assign_fallback_counterexample", T + "assignSelf_refines", T + "step_refines_partial",
+               T + "run_refines_partial", T + "optional_refines", T + "expected_refines_partial"],
+    "ctor": [T + "construct_refines", T + "step_refines_partial", T + "run_refines_partial"],
+    "swap": [T + "swap2_refines", T + "swapSelf_refines", T + "swapV_eq_std", T + "swap2_std", T + "swapO_eq_std", T + "step_refines_partial",
+             T + "run_refines_partial"],
     "rel": [T + "varRel_eq", T + "optRel_eq"], "relm": [T + "optRel_eq"],
     "reln": [T + "optRelNullR_eq", T + "optRelNullL_eq"], "relv": [T + "optRelValR_eq", T + "optRelValL_eq"],
-    "conv": [T + "step_refines", T + "assign_refines", T + "select_eq"],
-    "get_if": [T + "getIf_eq"], "value_or": [T + "valueOr_eq", T + "expValueOr_eq"], "and_then": [T + "andThen_eq", T + "expAndThen_eq"],
-    "or_else": [T + "orElse_eq", T + "expOrElse_eq"],
-    "reset": [T + "optional_refines"], "null": [T + "optional_refines"], "val": [T + "optional_refines"],
-    "ctor_val": [T + "expected_refines"], "ctor_err": [T + "expected_refines"], "ctor_def": [T + "expected_refines"],
+    "conv": [T + "convAssign_refines_partial", T + "convAssign_fallback_counterexample", T + "convCtor_refines", T + "step_refines_partial",
+             T + "run_refines_partial", T + "optional_refines", T + "optional_convCtor_refines", T + "select_eq"],
+    "get_if": [T + "getIf_eq"], "value_or": [T + "valueOr_eq", T + "valueOrCat_eq", T + "expValueOr_eq", T + "expValueOrCat_eq"],
+    "and_then": [T + "andThen_eq", T + "expAndThen_eq"],
+    "or_else": [T + "orElse_eq", T + "orElseCat_eq", T + "expOrElse_eq"],
+    "reset": [T + "optional_refines"], "null": [T + "optional_refines"],
+    "val": [T + "convAssign_refines_partial", T + "convCtor_refines", T + "optional_refines"],
+    "ctor_val": [T + "expected_refines_partial"], "ctor_err": [T + "expected_refines_partial"], "ctor_def": [T + "expected_refines_partial"],
+    "value": [], "assign_unex": [],
 }
 SEARCH_CAP = 300000
 
-VAR_CFGS = ["if", "fi", "it", "ti", "tif", "ift", "tm", "iftm", "fm", "ic", "id", "ia", "ib", "qx", "cb"]
+VAR_CFGS = ["if", "fi", "it", "ti", "tif", "ift", "tm", "iftm", "fm", "ic", "id", "ia", "ib", "qx", "cb", "ii"]
 OPT_CFGS = ["i", "f", "t", "m", "c", "d", "a", "b", "x"]
 EXP_CFGS = ["it", "ti", "if", "tm", "ic", "qx", "db"]
 CAT_CFGS = ["it", "qx", "id", "tif"]          # variant configurations with the value-category observations compiled in
 ARGS = ["i", "s", "l", "f", "t", "m"]
+SM_ARGS = ["c", "d", "a", "b", "q", "x"]     # the mark-carrying kinds as argument types of the converting forms
+
+
+def conv_args(alts):
+    """argument types for the converting forms of a configuration: the scalar / Trk / Mo ones, every mark-carrying kind that
+    is an alternative (lvalue and rvalue arguments tell copy from move members), and one that is not (no conversion: nc)"""
+    own = [a for a in SM_ARGS if a in alts]
+    return ARGS + own + [next(a for a in ("q", "c") if a not in alts)]
 VALS = {"i": [1, 2], "f": [2, 1000], "t": [1, 2], "m": [1, 2], "c": [1, 2], "d": [1, 2], "a": [1, 2], "b": [1, 2], "q": [1, 2],
         "x": [1, 2]}
 
@@ -201,10 +233,15 @@ def gen_var_exhaustive(add, thorough):
                 add(setup + [op, "visit s=[0]"], "var-self/" + alts)
             add(setup + ["get_if s=0 i=%d%s" % (i, via) for i in range(n) for via in ("", " via=type")]
                 + ["holds s=0 i=%d" % i for i in range(n)], "var-get/" + alts)
-            for a in ARGS:
+            for a in conv_args(alts):
                 for v in arg_val(a, alts):
                     for how in ("ctor", "assign"):
-                        add(setup + ["conv s=0 a=%s v=%d how=%s" % (a, v, how), "get_if s=0 i=0", "swap s=0 with=1"], "var-conv/" + alts)
+                        for cat in ("l", "r"):
+                            add(setup + ["conv s=0 a=%s v=%d how=%s cat=%s" % (a, v, how, cat), "get_if s=0 i=0", "swap s=0 with=1"],
+                                "var-conv/" + alts)
+            for pos in (0, 1, 2):
+                for idx in (0, 1):
+                    add(setup + ["visitp s=0 pos=%d v=7 idx=%d" % (pos, idx)], "var-visitp/" + alts)
         if n <= 3:
             for t in itertools.product(range(n), repeat=3):
                 setup = [new("var", alts)] + ["emplace s=%d i=%d v=%d" % (k, i, VALS[alts[i]][k % 2]) for k, i in enumerate(t)]
@@ -225,6 +262,7 @@ def gen_var_exhaustive(add, thorough):
         alpha += ["ctor s=%d from=%d mv=%d" % (k, j, mv) for k in (0, 1) for j in (0, 1) for mv in (0, 1)]
         alpha += ["swap s=0 with=1", "swap s=0 with=0", "swap s=1 with=1"]
         alpha += ["conv s=0 a=i v=3 how=assign", "conv s=1 a=s v=2 how=ctor", "conv s=1 a=t v=1 how=assign", "conv s=0 a=f v=3 how=assign"]
+        alpha += ["conv s=%d a=%s v=4 how=assign cat=%s" % (k, a, cat) for k, a in enumerate(alts[:2]) if a in SM_ARGS for cat in ("l", "r")]
         for seq in itertools.product(alpha, repeat=3 if thorough else 2):
             add([new("var", alts, 2)] + list(seq) + ["rel s=0 with=1", "visit s=[0,1] idx=1"], "var-hist/" + alts)
 
@@ -257,10 +295,12 @@ def gen_opt_exhaustive(add, thorough):
                 add(setup + ["relv s=0 a=own v=%d" % own], "opt-relv/" + t)
             for pv in [1, 2, 3]:
                 add(setup + ["relv s=0 a=i v=%d" % pv], "opt-relv/" + t)
-            for a in ARGS:
+            for a in conv_args(t):
                 for v in ([2, 3] if a != "f" else ([3, 5] + ([1000] if t == "f" else []))):
                     for how in ("ctor", "assign"):
-                        add(setup + ["val s=0 a=%s v=%d how=%s" % (a, v, how), "has s=0"], "opt-val/" + t)
+                        for cat in ("l", "r"):
+                            add(setup + ["val s=0 a=%s v=%d how=%s cat=%s" % (a, v, how, cat), "has s=0"], "opt-val/" + t)
+            add(setup + ["value s=0"], "opt-value/" + t)
             for pv in pvals:
                 ps = "pset j=1" + ("" if pv is None else " v=%d" % pv)
                 add(setup + [ps, "relm s=0 with=1"], "opt-relm/" + t)
@@ -303,6 +343,9 @@ def gen_exp_exhaustive(add, thorough):
                        "ecat s=0 q=0", "ecat s=0 q=1", "ecat s=0 q=2", "ecat s=0 q=3"]:
                 add(setup + [op, "has s=0"], "exp-one/" + alts)
             add(setup + ["assign_unex s=0 v=1"], "exp-unex/" + alts)
+            add(setup + ["value s=0"], "exp-value/" + alts)
+        for s0, s1 in itertools.product(exp_states(alts), repeat=2):
+            add([new("exp", alts), setx(0, s0), setx(1, s1), "rel s=0 with=1", "rel s=1 with=1"], "exp-rel/" + alts)
 
 
 def rand_var(rnd, alts, length):
@@ -323,12 +366,14 @@ def rand_var(rnd, alts, length):
         elif r < 0.64:
             lines.append("swap s=%d with=%d" % (k, j))
         elif r < 0.76:
-            a = rnd.choice(ARGS)
-            lines.append("conv s=%d a=%s v=%d how=%s" % (k, a, arg_val(a, alts, rnd), rnd.choice(["ctor", "assign"])))
+            a = rnd.choice(conv_args(alts))
+            lines.append("conv s=%d a=%s v=%d how=%s cat=%s" % (k, a, arg_val(a, alts, rnd), rnd.choice(["ctor", "assign"]), rnd.choice("lr")))
         elif r < 0.84:
             lines.append("rel s=%d with=%d" % (k, j))
         elif r < 0.90:
             lines.append(rnd.choice(["get_if", "holds"]) + " s=%d i=%d" % (k, rnd.randrange(na)))
+        elif r < 0.915:
+            lines.append("visitp s=%d pos=%d v=%d idx=%d" % (k, rnd.randrange(3), rnd.randrange(9), rnd.randrange(2)))
         elif r < 0.96 or alts not in CAT_CFGS:
             cnt = rnd.choice([1, 2, 2, 3]) if na <= 3 else rnd.choice([1, 2])
             lines.append("visit s=%s%s" % (fmt_list([rnd.randrange(n) for _ in range(cnt)]), rnd.choice(["", " idx=1"])))
@@ -350,9 +395,9 @@ def rand_opt(rnd, t, length):
         elif r < 0.22:
             lines.append(rnd.choice(["reset s=%d", "null s=%d how=assign", "null s=%d how=ctor"]) % k)
         elif r < 0.32:
-            a = rnd.choice(ARGS)
+            a = rnd.choice(conv_args(t))
             av = rnd.choice([3, 5] + ([1000] if t == "f" else [])) if a == "f" else rnd.choice([1, 2, 3])
-            lines.append("val s=%d a=%s v=%d how=%s" % (k, a, av, rnd.choice(["ctor", "assign"])))
+            lines.append("val s=%d a=%s v=%d how=%s cat=%s" % (k, a, av, rnd.choice(["ctor", "assign"]), rnd.choice("lr")))
         elif r < 0.46:
             lines.append("%s s=%d from=%d mv=%d" % (rnd.choice(["assign", "ctor"]), k, j, rnd.randrange(2)))
         elif r < 0.56:
@@ -368,7 +413,8 @@ def rand_opt(rnd, t, length):
         else:
             lines.append(rnd.choice(["has s=%d" % k, "value_or s=%d v=7" % k, "value_or s=%d v=7 mv=1" % k, "and_then s=%d f=inc" % k,
                                      "and_then s=%d f=none" % k, "or_else s=%d v=5" % k, "or_else s=%d" % k, "or_else s=%d v=4 mv=1" % k,
-                                     "ocat s=%d q=%d" % (k, rnd.randrange(4)), "ocat s=%d q=%d take=1" % (k, rnd.randrange(4))]))
+                                     "ocat s=%d q=%d" % (k, rnd.randrange(4)), "ocat s=%d q=%d take=1" % (k, rnd.randrange(4)),
+                                     "value s=%d" % k]))
     return lines
 
 
@@ -389,7 +435,7 @@ def rand_exp(rnd, alts, length):
         else:
             lines.append(rnd.choice(["has s=%d" % k, "value_or s=%d v=7" % k, "value_or s=%d v=7 mv=1" % k, "and_then s=%d f=inc" % k,
                                      "and_then s=%d f=fail v=3" % k, "or_else s=%d f=recover v=4" % k, "or_else s=%d f=same" % k,
-                                     "ecat s=%d q=%d" % (k, rnd.randrange(4))]))
+                                     "ecat s=%d q=%d" % (k, rnd.randrange(4)), "value s=%d" % k, "rel s=%d with=%d" % (k, j)]))
     return lines
 
 
@@ -465,7 +511,14 @@ def classify(case, k, row):
         return "F-C07-expected-no-unexpected-assign"
     if op == "conv" and case.lines[0].startswith("new kind=oref") and row.impl.startswith("nc"):
         return "F-C07-optional-ref-conversion"
-    if op == "assign" and " mv=0" in case.lines[k] and row.impl == row.model:
+    kind = re.match(r"new kind=(\w+)", [ln for ln in case.lines[:k + 1] if ln.startswith("new ")][-1]).group(1)
+    if op == "rel" and kind == "exp" and row.impl.startswith("nc"):
+        return "F-C07-expected-no-equality"
+    if op == "value" and kind in ("opt", "exp") and row.impl.startswith("nc"):
+        return "F-C07-no-checked-value-access"
+    copy_assign = op == "assign" and " mv=0" in case.lines[k]
+    copy_conv = op == "conv" and kind == "var" and " how=assign" in case.lines[k] and " cat=l" in case.lines[k] and " a=x " in case.lines[k]
+    if (copy_assign or copy_conv) and row.impl == row.model:
         # copy assignment to a different alternative whose type asks for copy-then-move ([variant.assign]/2.4, reinit-expected):
         # exactly one slot differs, it holds an x, implementation mark 1 (copy constructed), reference mark 2
         head = [ln for ln in case.lines[:k + 1] if ln.startswith("new ")][-1]
@@ -486,7 +539,8 @@ CLAIMED = True
 TECHNIQUE = ("Lean 4 proof: hand model of etl::variant (index + active value, every union access checked, visit_with_index modelled "
              "with its next_seq mixed-radix recursion, assign/construct/destroy/comparison through that dispatch, the four special "
              "members selected by the trait bits of the requires-clauses and applied to the elements as abstract copy/move "
-             "constructor and assignment functions, generic three-move swap), of optional and expected as wrappers of it, refined to a "
+             "constructor and assignment functions, converting constructor / assignment with both of its routes, generic three-move "
+             "swap), of optional and expected as wrappers of it, refined to a "
              "declarative sum-type spec for all histories; model tied to the code by exhaustive small-scope + random "
              "correspondence runs against std::variant/optional/expected")
 LEVEL_TEXT = ("etl::variant is modelled as (index, value of the active union member) with every union access behind the I == index() "
@@ -494,55 +548,71 @@ LEVEL_TEXT = ("etl::variant is modelled as (index, value of the active union mem
               "index() values, step with next_seq (a mixed-radix increment that wraps to zero) and call the last instantiation "
               "untested. Lean 4 proves, for any number of variants, any alternative counts and any active indices, that this "
               "dispatch ends on exactly the active tuple (so a visitor is always invoked with the active alternatives and no inactive "
-              "member is read), and — with no bound on history length or number of objects — that every history of emplace, in-place "
-              "construction, copy/move assignment and construction (trivial and non-trivial special-member paths, self forms), and the "
-              "generic three-move swap never fails and leaves every object with the index and value the sum-type spec prescribes, "
-              "moved-from sources included. The element's copy constructor, move constructor, copy assignment and move assignment are "
-              "four arbitrary functions on values (no laws), so the theorems also say WHICH special member produces the stored value: "
-              "[variant.assign] / [variant.ctor] / [optional.assign] / [expected.object.assign] - same alternative: the element's "
-              "assignment; different alternative: destroy + construction from the source - with the variant's defaulted (bitwise) "
-              "members taken exactly when the trait bits of the requires-clauses say so. The spec carries the copy-then-move that "
-              "[variant.assign]/2.4 and reinit-expected prescribe for an alternative with a throwing copy and a non-throwing move "
-              "constructor; etl constructs in place there (known finding, counterexample theorem; the history theorems exclude that "
-              "class by hypothesis). optional (engaged = index 1, reset = emplace<0>(nullopt)) and expected (value = index 0) are "
-              "proved to be simulations of Option / value-or-error under that history theorem. All six relational operators of "
-              "variant, of optional/optional (mixed T/U), optional/nullopt and optional/value in both operand orders are proved equal "
+              "member is read), and - with no bound on history length or number of objects - that every history of emplace, in-place "
+              "construction, copy/move assignment and construction (trivial and non-trivial special-member paths, self forms), "
+              "converting construction and converting assignment from a value, and the generic three-move swap never fails and leaves "
+              "every object with the index and value the sum-type spec prescribes, moved-from sources included. The element's copy "
+              "constructor, move constructor, copy assignment and move assignment are four arbitrary functions on values (no laws), so "
+              "the theorems also say WHICH special member produces the stored value: [variant.assign] / [variant.ctor] / "
+              "[optional.assign] / [expected.object.assign] - same alternative: the element's assignment; different alternative: "
+              "destroy + construction from the source - with the variant's defaulted (bitwise) members taken exactly when the trait "
+              "bits of the requires-clauses say so. The converting assignment `v = t` / `o = t` is part of the model (both routes the "
+              "implementation has: the operator=(T&&) member template, and - where that template is constrained away, scalar "
+              "alternatives - the temporary variant/optional plus move assignment) and proved equal to [variant.assign]/13 / "
+              "[optional.assign]: the selected alternative is held -> the argument is copy / move assigned to the held element and "
+              "nothing is re-constructed; otherwise destroy + construct from the argument; optional = optional<U> is the same step. "
+              "The spec carries the copy-then-move that [variant.assign]/2.4, 13.3 and reinit-expected prescribe for an alternative with "
+              "a throwing copy and a non-throwing move constructor; etl constructs in place there (known finding, two counterexample "
+              "theorems). The `_partial` theorems exclude exactly that class, as a decidable predicate on the step (Spec.fbHit), not on "
+              "the configuration: histories over a variant that contains such a type are covered except for the steps that are a "
+              "cross-alternative copy of such a value. variant::swap is specified as [variant.swap] states it (same alternative: the "
+              "elements are swapped; different: the values are exchanged) and the three-move etl::swap is proved equal to it - exactly "
+              "for equal alternatives, and for different ones under the single element law that a second move construction is not "
+              "observable; likewise [optional.swap]. optional (engaged = index 1, reset = emplace<0>(nullopt)) and expected (value = "
+              "index 0) are proved to be simulations of Option / value-or-error under that history theorem. All six relational operators "
+              "of variant, of optional/optional (mixed T/U), optional/nullopt and optional/value in both operand orders are proved equal "
               "to the std definitions for arbitrary element operator tables (NaN-like ones included); value_or, and_then and get_if are "
               "proved equal to their declarative specs, and so are optional::or_else and expected's value_or, and_then, or_else and "
-              "error() (with their preconditions shown to hold on the paths that use them). The alternative the converting constructor / assignment selects (a left-to-right "
-              "scan keeping the best non-narrowing candidate and a tie flag) is proved equal to the declarative selection (the unique "
-              "viable alternative strictly better than all others) for any candidate table. Value categories cannot be carried by a "
-              "value-level model: which reference kind visit, unchecked_get, operator[], operator*, error(), and_then and or_else hand "
-              "on for lvalue, const lvalue, rvalue and const rvalue objects, and what a by-value visitor leaves behind in the source, "
-              "is observed at compile time (decltype matrix) and at run time and compared with std line by line. The model is tied to the current source on every run by executing model and implementation "
-              "on the same histories (every from/to state pair x every assignment, construction, swap and comparison form over 15 "
-              "variant, 9 optional, 7 expected configurations with trivially copyable, non-trivial, move-only alternatives, six "
-              "kinds whose four special members are distinguishable in the stored value, and optional<int&>; all depth-2/3 histories; random long histories) under ASan/UBSan; the spec is validated against "
-              "libstdc++ on the same histories.")
+              "error() (with their preconditions shown to hold on the paths that use them); for value_or and optional::or_else also the "
+              "rvalue overloads with the copy / move construction of the result and the moved-from object. The alternative the "
+              "converting constructor / assignment selects (a left-to-right scan keeping the best non-narrowing candidate and a tie "
+              "flag) is proved equal to the declarative selection (the unique viable alternative strictly better than all others) for "
+              "any candidate table. Value categories cannot be carried by a value-level model: which reference kind visit, "
+              "unchecked_get, operator[], operator*, error(), and_then and or_else hand on for lvalue, const lvalue, rvalue and const "
+              "rvalue objects, and what a by-value visitor leaves behind in the source, is observed at compile time (decltype matrix) "
+              "and at run time and compared with std line by line. The model is tied to the current source on every run by executing "
+              "model and implementation on the same histories (every from/to state pair x every assignment, construction, swap and "
+              "comparison form over 16 variant, 9 optional, 7 expected configurations with trivially copyable, non-trivial, move-only "
+              "alternatives, a repeated alternative type, six kinds whose four special members are distinguishable in the stored value - "
+              "also as lvalue and rvalue ARGUMENTS of the converting forms - and optional<int&>; visit with non-variant arguments; all "
+              "depth-2/3 histories; random long histories) under ASan/UBSan; the spec is validated against libstdc++ on the same histories.")
 LEVEL_NOTE = ("Trusted: Lean kernel + propext/Classical.choice/Quot.sound; the hand model's fidelity outside the explored inputs; "
               "g++-12/ASan; libstdc++ 12 as oracle for spec validation. Overload resolution and template constraints are the compiler's: "
-              "which assignment operator or constructor a call selects is observed by the harness, the model takes the path the "
-              "selected one takes. Object lifetime (construct/destroy pairing) is property C03, not modelled here. optional<T&> is "
-              "modelled as a nullable cell index and compared with a pointer reference written out in the harness (no std counterpart "
-              "in libstdc++ 12). Two members the property names do not exist in the library (expected = unexpected<G>, optional<T&> "
-              "from optional<U>) and are recorded as known findings, replayed on every run.")
+              "WHICH overload a call selects (member template or converting constructor + move assignment; which alternative's "
+              "conversion rank) is given to the model as data (the `direct` flag and the candidate table of the driver, a function of "
+              "the types) and validated by the correspondence run on every argument type x category x configuration; what the selected "
+              "route does is modelled and proved. `!=` is modelled as the negation of `==` (the C++20 rewrite the library relies on; "
+              "std uses the element's own `!=`): hypothesis `hne`. Object lifetime (construct/destroy pairing) is property C03, not "
+              "modelled here. optional<T&> is modelled as a nullable cell index and compared with a pointer reference written out in "
+              "the harness (no std counterpart in libstdc++ 12). Members the std types have and the library does not (expected = "
+              "unexpected<G>, optional<T&> from optional<U>, expected ==/!=, optional/expected value()) are recorded as known findings, "
+              "each switched by a compile probe and replayed on every run.")
 CORRESPONDENCE_ONLY = [
     "optional<T&> (bind/rebind, reset, copy, swap of the pointer, write-through, comparisons): the model is a nullable cell index; "
     "compared with a pointer reference on every run, no theorem beyond the optional relational theorems it reuses",
-    "rvalue forms (value_or &&, or_else &&) and the copy / move construction of the returned object: Model.orElse / expValueOr / "
-    "expAndThen / expOrElse give the element that is handed on (theorems orElse_eq, expValueOr_eq, expAndThen_eq, expOrElse_eq, "
-    "expError_eq); marking the source as moved-from and copy / move constructing the result with `el` is done in the driver, "
-    "compared on every run",
-    "which assignment path a converting assignment takes (class alternatives: assignment to the held T_j / emplace<T_j> otherwise; "
-    "scalar ones: temporary variant + move assignment; optional::operator=(U&&) and operator=(optional<U>) likewise): modelled in the "
-    "driver with the element operations (`el.ma` for the assign-through), compared on every run with element kinds that tell an "
-    "assignment from a construction; the theorems cover the variant operations these paths are made of",
-    "conversion of the argument value (short -> int, float -> Trk(int) truncation, int -> float) and the conversion-rank table of the "
-    "element types: test data of the driver, validated by R1/R2",
-    "emplace<T> / get_if<T> / holds_alternative<T> by type: index_of<T> is compile-time; the model uses the index",
+    "which route a converting assignment takes (`direct` of Model.convAssign: the operator=(T&&) template is viable for class "
+    "alternatives, and for optional unless T is scalar and U = T) and the conversion-rank table of the element types "
+    "(Driver.convTab): functions of the types, i.e. the compiler's overload resolution; given to the model as data and validated by "
+    "R1/R2 on every argument type x lvalue/rvalue x configuration (both routes themselves are in the model and proved: "
+    "convAssign_refines_partial)",
+    "conversion of the argument VALUE (short -> int, float -> Trk(int) truncation, int -> float): arithmetic of the driver's test "
+    "data, validated by R1/R2",
+    "expected's and_then / or_else on an rvalue expected (the value / error is moved out): Model.expAndThen / expOrElse give the "
+    "element that is handed on (theorems expAndThen_eq, expOrElse_eq, expError_eq); marking the source as moved-from is done in the "
+    "driver, compared on every run",
+    "emplace<T> / get_if<T> / holds_alternative<T> by type: index_of<T> is compile-time; the model uses the index (for a repeated "
+    "alternative type the driver answers `nc`, as both libraries do)",
     "return values of emplace (reference to the new value) and of visit (the visitor's result): compared on every run",
-    "optional(optional<U>) converting constructor / assignment: modelled as `_var{nullopt}` then `emplace(*other)` / `reset()`, "
-    "covered by the history theorem only through those variant operations",
 ]
 UNPROVED_OBSERVED = [
     "value categories (observed, not proved - a value-level Lean model cannot carry them): the reference kind (T&, T const&, T&&, "
@@ -552,7 +622,7 @@ UNPROVED_OBSERVED = [
     "compile-time decltype matrix plus the run-time overload a forwarding visitor receives, etl against std line by line "
     "(expected's monadic members against [expected.object.monadic] written out, libstdc++ 12 lacks them); the moved-from state a "
     "by-value visitor / `T x = *move(o)` leaves in the source is part of the compared state; the driver's side of these lines is the "
-    "forwarding table of the standard (category in = category out), not a theorem. optional has no value() member.",
+    "forwarding table of the standard (category in = category out), not a theorem.",
     "element lifetimes (each alternative constructed once / destroyed once; arguments aliasing the variant in emplace and converting "
     "assignment): property C03; ASan/UBSan observe the explored histories",
 ]
